@@ -378,6 +378,13 @@ def generate(tier, seed):
         for g in figs:
             steps += [{"spec": f}, {"spec": g}]
         yield "history", {"steps": steps}, True
+    # sibling histories: all specifications of one function, forwards then backwards (incompletely keyed caches, option leaks)
+    by_func = {}
+    for n in names:
+        by_func.setdefault(specs.SPECS[n].func, []).append(n)
+    for func, group in sorted(by_func.items()):
+        if len(group) >= 2:
+            yield "history", {"steps": [{"spec": n} for n in group] + [{"spec": n} for n in reversed(group)]}, True
     # every spec at least once, in shuffled blocks, each block twice in different orders
     order = list(names)
     rng.shuffle(order)
